@@ -241,7 +241,9 @@ def tlc(spec, cfg, env=None, workers=1, extra=(), timeout=1800, metadir=None, he
     md = metadir or fresh_dir("tlc-%d-%d" % (os.getpid(), time.time_ns()))
     cmd = ["timeout", str(timeout), "java", "-Xmx" + heap, "-Xss64m", "-XX:+UseParallelGC",
            "-XX:ParallelGCThreads=%d" % gcthreads] + list(props) + ["-cp", TLA_CP, "tlc2.TLC",
-           "-workers", str(workers), "-metadir", md, "-config", cfg] + list(extra) + [spec]
+           "-workers", str(workers), "-metadir", md, "-config", cfg]
+    # (no trace-exploration spec next to the specification when TLC reports a counterexample)
+    cmd += [x for x in ["-noGenerateSpecTE"] if x not in extra] + list(extra) + [spec]
     r = sh(cmd, cwd=SPEC, env=e)
     shutil.rmtree(md, ignore_errors=True)
     return r
